@@ -1,5 +1,6 @@
 import DaskModel.DriverLib
 import DaskModel.Model.NormalForm
+import DaskModel.Model.NormalFormRec
 import DaskModel.Model.TaskNode
 import DaskModel.Model.Repack
 import DaskModel.Model.GraphMerge
@@ -53,6 +54,23 @@ def hTokPreKw : Handler := handler fun args =>
       | _ => none)
     pure (.str (tokPreKw vs kws))
   | _ => none
+
+/-- possibly recursive values: `(rval V) (back n) (rlist r…) (rtuple r…) (rdict (V r)…)` -/
+partial def decRVal : SExp → Option RVal
+  | .list [.sym "rval", v] => do pure (.val (← decVal v))
+  | .list [.sym "back", n] => do pure (.backref (← n.toNat?))
+  | .list (.sym "rlist" :: xs) => do pure (.list (← xs.mapM decRVal))
+  | .list (.sym "rtuple" :: xs) => do pure (.tuple (← xs.mapM decRVal))
+  | .list (.sym "rdict" :: kvs) => do
+    pure (.dict (← kvs.mapM (fun e => match e with
+      | .list [k, v] => do pure ((← decVal k), (← decRVal v))
+      | _ => none)))
+  | _ => none
+
+/-- `(tokprerec r…)` ↦ the string fed to md5 by `tokenize(r…)` for possibly recursive arguments -/
+def hTokPreRec : Handler := handler fun args => do
+  let rs ← args.mapM decRVal
+  pure (.str (tokPreRec rs))
 
 /-- `(pyrepr v)` / `(pystr v)` -/
 def hPyRepr : Handler := handler fun args =>
@@ -327,7 +345,7 @@ def hGetScheduler : Handler := handler fun args =>
   | _ => none
 
 def table : List (String × Handler) :=
-  [("getscheduler", hGetScheduler), ("delayedrun", hDelayedRun), ("mergeeval", hMergeEval), ("unpack", hUnpack), ("unpacktop", hUnpackTop), ("tune", hTune),
+  [("tokprerec", hTokPreRec), ("getscheduler", hGetScheduler), ("delayedrun", hDelayedRun), ("mergeeval", hMergeEval), ("unpack", hUnpack), ("unpacktop", hUnpackTop), ("tune", hTune),
    ("nodepre", hNodePre), ("nodeclass", hNodeClass), ("nodeeval", hNodeEval),
    ("tokpre", hTokPre), ("tokprekw", hTokPreKw), ("pyrepr", hPyRepr), ("pystr", hPyStr), ("logical", hLogical)]
 
